@@ -224,6 +224,7 @@ theorem ownFresh_step {u B : Int} {s s' : State} {l : Label} (hu : 0 < u) (hB0 :
         rw [hnow, hst]; exact hinv i o k ho hal hk
   | wakeIssue j => exact absurd ha (by simp [Allowed])
   | land j => exact absurd ha (by simp [Allowed])
+  | keepaliveFail j w => exact absurd ha (by simp [Allowed])
   | kill j =>
     obtain ⟨oj, hoj, _, hnow, hst, hops, _⟩ := kill_spec h
     refine ⟨?_, ?_⟩
@@ -351,6 +352,7 @@ theorem ops_none_of_not_started {u : Int} {i : Identity} : ∀ (ls : List Label)
         have hij : i ≠ j := fun e => hall _ List.mem_cons_self p L (by rw [e])
         rw [hops, updOp_other _ _ hij]; exact hn
       | keepalive j lag => obtain ⟨oj, hj, _, _, _, _, hops⟩ := keepalive_spec hs; exact upd hj hops
+      | keepaliveFail j w => obtain ⟨oj, hj, _, _, _, _, hops⟩ := keepaliveFail_spec hs; exact upd hj hops
       | exit j => obtain ⟨oj, hj, _, _, _, hops, _⟩ := exit_spec hs; exact upd hj hops
       | exitLost j => obtain ⟨oj, hj, _, _, _, hops, _⟩ := exitLost_spec hs; exact upd hj hops
       | exitBegin j => obtain ⟨oj, hj, _, _, _, _, _, hops⟩ := exitBegin_spec hs; exact upd hj hops
@@ -396,6 +398,7 @@ def allowedOn (u B : Int) (ids : List Identity) (s : State) : Label → Bool
       (match o.nextKA with | some k => decide (latestDeadline u s.status j s.now ≤ k + B) | none => true)))
   | .wakeIssue _ => false
   | .land _ => false
+  | .keepaliveFail _ _ => false
   | .foreign j _ => (s.ops j).isNone
   | _ => true
 
@@ -423,6 +426,7 @@ theorem allowedOn_sound {u B : Int} {ids : List Identity} {s : State} {l : Label
   | exitBegin i => trivial
   | wakeIssue i => simp [allowedOn] at h
   | land i => simp [allowedOn] at h
+  | keepaliveFail i w => simp [allowedOn] at h
   | foreign j r =>
     simp only [allowedOn, Option.isNone_iff_eq_none] at h
     exact h
